@@ -1,7 +1,7 @@
 (* The C12 oracle (all engines give the same transcript) accepts every case whose runs are what the request
    programs produce over the adapter models — for histories inside the proved part of engine independence. *)
 From KB Require Import Base.Cases Model.Store Model.Adapters Model.C11Cases Model.Coder Model.BackendSeq Model.C12Cases
-  Proofs.Store Proofs.Adapters Proofs.C11Cases Proofs.C12Indep.
+  Proofs.Store Proofs.Adapters Proofs.C11Cases Proofs.C12Indep Proofs.C12Compact.
 Local Open Scope N_scope.
 
 Lemma list_eqb_refl {X} (eqb : X -> X -> bool) (l : list X) : (forall x, eqb x x = true) -> list_eqb eqb l l = true.
@@ -58,8 +58,18 @@ Qed.
 Lemma event_eqb_refl x : event_eqb x x = true.
 Proof. destruct x as [[[[t k] v] kr] r]. unfold event_eqb. rewrite !N.eqb_refl, !beqb_refl. reflexivity. Qed.
 
-(* the proved part: no Compact request, no empty value written *)
-Definition c12_valid (c : c12_case) : Prop := Forall point_ok (h_reqs c).
+(* outside the recorded deviation: no empty value written *)
+Definition c12_valid (c : c12_case) : Prop := Forall hist_ok (h_reqs c).
+
+Lemma stamped_of e : stamped_if_version (sim_of e).
+Proof.
+  destruct e; cbn [sim_of].
+  - exact stamped_memkv.
+  - exact stamped_badger.
+  - exact stamped_tikv.
+  - apply (stamped_wrapper memkv ByValue sim_memkv). exact stamped_memkv.
+  - apply (stamped_wrapper badger ByVersion sim_badger). exact stamped_badger.
+Qed.
 
 Lemma plain_ok_of e : plain_ok (sim_of e).
 Proof.
@@ -71,12 +81,12 @@ Proof.
   - apply plain_ok_wrapper. exact plain_ok_badger.
 Qed.
 
-Lemma run_ok_transcript init qs r0 r : Forall point_ok qs -> run_ok init qs r0 = true -> run_ok init qs r = true ->
+Lemma run_ok_transcript init qs r0 r : Forall hist_ok qs -> run_ok init qs r0 = true -> run_ok init qs r = true ->
   same_transcript r0 r = true.
 Proof.
   intros Hok H0 H1. unfold run_ok in *.
-  rewrite (engine_independent_points _ _ (sim_of (r_eng r)) _ _ (sim_of (r_eng r0)) registry init qs
-             (plain_ok_of _) (plain_ok_of _) Hok) in H1.
+  rewrite (engine_independent _ _ (sim_of (r_eng r)) _ _ (sim_of (r_eng r0)) registry init qs
+             (plain_ok_of _) (stamped_of _) (plain_ok_of _) (stamped_of _) Hok) in H1.
   destruct (run_history (adapter_of (r_eng r0)) registry init qs) as [[final rs] evs].
   apply andb_true_iff in H0 as [H0 _]. apply andb_true_iff in H0 as [Ha0 Hb0].
   apply andb_true_iff in H1 as [H1 _]. apply andb_true_iff in H1 as [Ha1 Hb1].
